@@ -77,7 +77,7 @@ func verifConvInput(kind int) (any, bool) {
 	case 10:
 		return &dtpb.String{Value: verifrt.NondetString("in.fs", 2)}, true
 	case 11:
-		return &dtpb.Decimal{Value: []string{"1.0", "0", "-3.25", "1e3", "abc"}[verifrt.Choose("in.fd", 5)]}, true
+		return &dtpb.Decimal{Value: []string{"1.0", "0", "-3.25"}[verifrt.Choose("in.fd", 3)]}, true
 	default:
 		return &dtpb.HumanName{Family: &dtpb.String{Value: verifrt.NondetString("in.fam", 1)}}, true
 	}
